@@ -35,7 +35,7 @@ fn replay_read_vs_overwrite() {
     let t0 = std::time::Instant::now();
     let mut failure = None;
     let mut reads = 0u64;
-    while t0.elapsed() < std::time::Duration::from_secs(20) && failure.is_none() {
+    while t0.elapsed() < std::time::Duration::from_secs(90) && failure.is_none() {
         reads += 1;
         match cas.get(&"k".to_string()) {
             Ok(Some(b)) => assert!(b.starts_with(b"v"), "mixed content"),
